@@ -59,6 +59,9 @@ type channel struct {
 	cancelStream    context.CancelFunc
 	responseRouters map[uint64]responseRouter
 	responseMut     sync.Mutex
+	// reconnected wakes up a reconnect loop that sleeps in its back-off
+	// when somebody else has re-created the stream
+	reconnected chan struct{}
 }
 
 // newChannel creates a new channel for the given node and starts the sending goroutine.
@@ -75,6 +78,7 @@ func newChannel(n *RawNode) *channel {
 		latency:         -1 * time.Second,
 		rand:            rand.New(rand.NewSource(time.Now().UnixNano())),
 		responseRouters: make(map[uint64]responseRouter),
+		reconnected:     make(chan struct{}, 1),
 	}
 	// parentCtx controls the channel and is used to shut it down
 	c.parentCtx = n.newContext()
@@ -367,6 +371,10 @@ func (c *channel) reconnect(maxRetries float64) {
 		if err == nil {
 			c.streamBroken.clear()
 			c.streamMut.Unlock()
+			select {
+			case c.reconnected <- struct{}{}:
+			default:
+			}
 			return
 		}
 		c.cancelStream()
@@ -389,6 +397,8 @@ func (c *channel) reconnect(maxRetries float64) {
 		case <-time.After(time.Duration(delay)):
 			retries++
 			vEmit("ReconTimer", c.node.ID(), 0, "who", maxRetries)
+		case <-c.reconnected:
+			// the stream may be up again; check without waiting out the back-off
 		case <-c.parentCtx.Done():
 			vEmit("ReconParentDone", c.node.ID(), 0, "who", maxRetries)
 			return
